@@ -522,6 +522,7 @@ def main(emit):
         imp = [a for s in trees['tags'].body if isinstance(s, ast.ImportFrom) and s.module == 'lib' and s.level == 0 for a in s.names if a.name == 'terminal' and a.asname is None]
         one(imp, '`from lib import terminal`')
         one(binders(trees['tags'], 'terminal'), 'binding of terminal')
+        top(trees['terminal'], '_strip_delay', ast.Assign)     # bound once; WHAT it is bound to is not looked at (oracle strip_delay)
         for t in trees.values():     # the builtins the rules give a meaning to are the builtins
             for b in ('repr', 'str', 'bytes', 'isinstance', 'type', 'map', 'dict', 'functools', 'enum', 're'):
                 if [x for x in binders(t, b) if not (isinstance(x, ast.alias) and x.name == b and x.asname is None)]:
